@@ -309,6 +309,24 @@ def check_history(steps, acc, api, case=None):
     for fn, _, _ in exp:
         acc.cover('functions', fn)
     bad = compare(logs, exp)
+    if bad is None and core.case_hash(text) % 4 == 0:
+        # the same history in debug mode with a log function: failing calls are REPORTED, results and containers are the same
+        dlogs = []
+        try:
+            with core.alarm(20):
+                bare_script.execute_script(bare_script.parse_script(text), {'logFn': dlogs.append, 'globals': {}, 'debug': True})
+        except core.CaseTimeout:
+            dlogs = None
+        except Exception as exc:  # pylint: disable=broad-except
+            acc.violation('history-raised', f'debug mode: {type(exc).__name__}: {exc}\n{text}', case)
+            return
+        if dlogs is not None:
+            acc.count('debug_mode_histories')
+            plain = [l for l in dlogs if not l.startswith('BareScript:')]
+            if plain != logs:
+                k = next((i for i, (a, b) in enumerate(zip(plain, logs)) if a != b), min(len(plain), len(logs)))
+                acc.violation('history-depends-on-debug-mode', f'step {k}: debug mode {plain[k] if k < len(plain) else None!r:.300} vs {logs[k] if k < len(logs) else None!r:.300}\n{text[:1200]}', case)
+                return
     if bad is None:
         acc.count('histories_agree')
         if len(acc.samples) < 2:
@@ -344,7 +362,7 @@ def run_histories(spec, acc, api):
 
 
 FRAGMENTS = ['a', 'b', 'x', '{2}', '{1,2}', '{0,}', '{,3}', '{1}', '*', '+', '?', '.', '(', ')', '(?:', '(?=a)', '[a-c]', '[^a]', '\\d', '\\w+', '\\', '^', '$', '|', '-', ' ', '#', '\n',
-             '(?i)', '\\1', '\\b', '{', '}', ',', '0', '12', '%', '%41', '%2F', '%e2%82%ac', '25%25', '%zz', '%ff', '+', '&a=', '?q=', '://', '#x']
+             '(?i)', '\\1', '\\b', '{', '}', ',', '0', '12', '\\k<id>', '\\g<1>', '\\p{L}', '(?P<n>', '\\N{DASH}', '\\x41', '\\u0041', '%', '%41', '%2F', '%e2%82%ac', '25%25', '%zz', '%ff', '+', '&a=', '?q=', '://', '#x']
 
 
 def run_escapes(spec, acc, api):
